@@ -787,6 +787,7 @@ func main() {
 	out := flag.String("out", "", "output directory")
 	flag.StringVar(&repo, "repo", "/repo", "repository root")
 	hashes := flag.Bool("hashes", false, "print the source pins only")
+	harnessEnums := flag.String("harness-enums", "", "write the harness enum registry (Go source) here")
 	flag.Parse()
 	if *hashes {
 		fmt.Print(genSrc(true))
@@ -808,5 +809,6 @@ func main() {
 	}
 	_ = strconv.Itoa
 	genMsgs(*out)
+	genEnums(*out, *harnessEnums)
 	fmt.Printf("extracted tables from %s\n", repo)
 }
